@@ -3,7 +3,7 @@ from vf.props import reg, COMMON_ASSUMPTIONS
 
 reg(Prop(
     'C13',
-    [Harness('c13_box', parts=16, slices=3, thorough_cfg='asan1')],
+    [Harness('c13_box', parts=16, slices=4, thorough_cfg='asan1')],
     rule='Value types int, long, unsigned (unsigned shifted by +3). N=1 and N=2: every box with corners in [-3,3] and pos<=max '
          '(28 / 784 boxes) is judged against the explicit set of lattice points in [-7,7]^N (std::bitset): points<T,N> = '
          'one box x every lattice point (contains_point, size/pos/max for three ways of building the box, corner_points); '
